@@ -2,8 +2,10 @@
 Line-protocol driver for C14.
   index <pkgs>      pkgs := '-' | pkg (',' pkg)*   pkg := 'x' (no purl) | <hextype> ':' <hexname>
      -> obs=<observation of the MODEL index: A=ids;T<type>=ids;…;S<type>:<name>=ids;…> spec=<the same queries answered by filtering the list>
-  harvest <hex extractor> <hex fixture>
+  harvest <hex extractor> <hex fixture>  |  layout <hex os-release variant>
      -> issues=-      (the specification: a harvested package raises no issue; the harvest itself is testing, see c14gen)
+  accept <e|c> <hextype> <hex origin>
+     -> acc=1 accs=1 idem=1 must=<1 for e: a type some built-in ToPURL can emit must be accepted by purl.FromString>
 Package ids are positions in the list. Query pool: types and names in order of first appearance, plus "zz".
 -/
 import Scalibr.Base.Wire
@@ -48,6 +50,11 @@ def handle (line : String) : String :=
       s!"spec={observe types names (specAll pkgs) (specOfType pkgs) (specSpecific pkgs)}"
     | none => "bad-op"
   | ["harvest", _, _] => "issues=-"
+  | ["layout", _] => "issues=-"
+  -- the specification: a purl type a built-in extractor can emit (`e`) must be accepted and round-trip;
+  -- a declared constant no extractor emits (`c`) is reported only
+  | ["accept", "e", _, _] => "acc=1 accs=1 idem=1 must=1"
+  | ["accept", "c", _, _] => "acc=1 accs=1 idem=1 must=0"
   | _ => "bad-op"
 
 def main : IO Unit := serve handle
